@@ -17,6 +17,7 @@ class ExploreResult(object):
         self.outcomes = {}  # observation summary -> count of terminal states
         self.violations = {}  # signature -> (detail, trace labels)
         self.exhaustive = True
+        self.deviation_bound = None
         self.unsound = None
         self.sample_traces = []
         self.counters = {}
@@ -102,9 +103,17 @@ def key_trace(h, choices, repo):
     return keys
 
 
-def explore(h, max_states=200000, seed=0, max_wall=None, check_key_soundness=True, progress=None, determinism_checks=2):
+def explore(h, max_states=200000, seed=0, max_wall=None, check_key_soundness=True, progress=None, determinism_checks=2, max_deviations=None):
+    """max_deviations=k: iterative-context-bounding style restriction -- only schedules that depart at most
+    k times from the default choice (the first enabled action in canonical order: keep running the process
+    that moved last) are explored, all of them; a state is re-expanded when reached again with fewer
+    deviations spent.  The termination analysis needs the complete graph and is skipped under a bound."""
     repo = repo_dir()
     res = ExploreResult(h.name)
+    if max_deviations is None:
+        max_deviations = getattr(h, "max_deviations", None)
+    res.deviation_bound = max_deviations
+    spent = {}  # key -> fewest deviations with which the state was expanded
     t0 = time.time()
     rnd = random.Random(seed) if seed else None
     seen = {}  # key -> hash of canonical enabled labels
@@ -148,11 +157,16 @@ def explore(h, max_states=200000, seed=0, max_wall=None, check_key_soundness=Tru
                     pass
                 acts = [] if (finished or viol) else sched.enabled()
                 canon = hash(statekey.canon_labels(acts, sched, rank))
+                ndev = sum(1 for c in choices if c)
                 if key in seen:
                     if check_key_soundness and seen[key] != canon:
                         res.unsound = "state key merged states with different enabled actions; trace %r" % (sched.trace,)
                         raise vmp.VmpError("UNSOUND-KEY: " + res.unsound)
-                    break
+                    if max_deviations is None or spent.get(key, 0) <= ndev or key in terminal_keys or key in cut_keys:
+                        break
+                    # reached again having spent fewer deviations: more of its successors are within the bound
+                    res.counters["re_expansions"] = res.counters.get("re_expansions", 0) + 1
+                spent[key] = ndev
                 seen[key] = canon
                 if cur_parent is not None:
                     parent[key] = (cur_parent, cur_label)
@@ -179,6 +193,8 @@ def explore(h, max_states=200000, seed=0, max_wall=None, check_key_soundness=Tru
                     res.violation("deadlock", "no enabled action; pending: %s" % pend, sched.trace)
                     break
                 alts = list(range(1, len(acts)))
+                if max_deviations is not None and ndev >= max_deviations:
+                    alts = []
                 if rnd:
                     rnd.shuffle(alts)
                 for a in reversed(alts):
@@ -203,7 +219,7 @@ def explore(h, max_states=200000, seed=0, max_wall=None, check_key_soundness=Tru
 
     res.states = len(seen)
     # termination analysis: every explored state must be able to reach a terminal state
-    if res.exhaustive:
+    if res.exhaustive and max_deviations is None:
         pred = {}
         for a, bs in succ.items():
             for b in bs:
